@@ -43,7 +43,7 @@ def ty_text(t):
     return t[0]
 
 
-LLVM14_MISSING = {"empty-list-no-context", "repeated-include", "named-args", "uninitialised-field", "untyped-question", "!exists", "!div", "!tolower", "!toupper", "!range", "!getdagarg", "!getdagname", "!setdagarg",
+LLVM14_MISSING = {"empty-list-no-context", "pasted-def-use", "body-defvar-reads-field", "repeated-include", "named-args", "uninitialised-field", "untyped-question", "!exists", "!div", "!tolower", "!toupper", "!range", "!getdagarg", "!getdagname", "!setdagarg",
                   "!setdagname", "!listremove", "!logtwo", "!listflatten", "!repr", "!initialized", "dump"}
 
 
@@ -110,6 +110,7 @@ class Gen:
         self.feats = feats or {}
         self.dead = []           # names whose declaring construct has ended: (name, key)
         self.hide = set()        # names not to be used right now (no self reference in an initialiser)
+        self.pasted = set()
         self.field_init = False  # writing the initialiser of a typed field (an empty list literal has a type there)
         self.loop_vars = []      # (name, type) of the enclosing foreach statements
         self.in_mc = 0           # inside a multiclass body: defs are prototypes, not referable by name
@@ -142,6 +143,8 @@ class Gen:
         lo = self.here()
         self.w(name)
         self.p.uses.append((self.cur, lo, self.here(), key))
+        if key in self.pasted:
+            self.feat("pasted-def-use")      # the indexer names the def by the first component; llvm by the pasted name
         if site:
             d = {"kind": site, "path": self.cur, "lo": lo, "hi": self.here(), "name": name, "key": key}
             self.p.sites.append(d)
@@ -923,8 +926,11 @@ class Gen:
             name = self.fresh("lv")
             key = self.decl(name, "defvar")
             self.w(" = ")
+            n_uses = len(self.p.uses)
             self.value_exact(t, 1) if t[0] in ("bit", "int") else self.value(t, 1)
             self.w(";")
+            if any(self.p.decl_kind.get(u[3]) == "field" for u in self.p.uses[n_uses:]):
+                self.feat("body-defvar-reads-field")      # llvm-tblgen-14 parses a body defvar without the record
             self.bind(name, Sym(key, t, "defvar"))
             self.feat("body-defvar")
         elif c == "assert":
@@ -995,6 +1001,7 @@ class Gen:
             for vn in self.paste_suffix():
                 self.w("#" + vn)             # not visited by the indexer (DESIGN Appendix D)
                 self.feat("def-paste-name")
+                self.pasted.add(key)
         else:
             name, key = None, None
             self.feat("anonymous-def")
